@@ -102,7 +102,7 @@ func genOps(r *vh.Rand, maxVal int) []opJ {
 type ranker struct{ keys []uint32 }
 
 func newRanker(ks ...uint32) *ranker { return &ranker{append([]uint32(nil), ks...)} }
-func (x *ranker) add(ks ...uint32)  { x.keys = append(x.keys, ks...) }
+func (x *ranker) add(ks ...uint32)   { x.keys = append(x.keys, ks...) }
 func (x *ranker) done() {
 	sort.Slice(x.keys, func(i, j int) bool { return x.keys[i] < x.keys[j] })
 	j := 0
@@ -147,14 +147,24 @@ func buildTable(dir string, fn int64, ops []opJ) (flags []bool, b table.Builder,
 	for _, o := range ops {
 		before := b.Count()
 		if o.Kind == "add" {
-			if e := b.Add(o.Key, o.value()); e != nil {
+			v := append([]byte(nil), o.value()...)
+			e := b.Add(o.Key, v)
+			for i := range v { // the caller's buffer is reused after the call
+				v[i] = '#'
+			}
+			if e != nil {
 				err = e
 				return
 			}
 		} else {
 			sw.Prepare(o.Key)
 			for _, c := range o.Chunks {
-				if _, e := sw.Write(c); e != nil {
+				cc := append([]byte(nil), c...)
+				_, e := sw.Write(cc)
+				for i := range cc {
+					cc[i] = '#'
+				}
+				if e != nil {
 					err = e
 					return
 				}
